@@ -603,10 +603,35 @@ func (obj *Flavor) LoadForm() slip.Object {
 func (obj *Flavor) inheritedVar(k string, v slip.Object) bool {
 	for _, f := range obj.inherit {
 		if iv, has := f.defaultVars[k]; has {
-			return v == iv
+			return sameDefault(v, iv)
 		}
 	}
 	return false
+}
+
+// sameDefault returns true if two default values are the same. A default can
+// be a list or any other value that can not be compared with ==.
+func sameDefault(a, b slip.Object) bool {
+	if a == nil || b == nil {
+		return a == nil && b == nil
+	}
+	switch ta := a.(type) {
+	case slip.List:
+		tb, ok := b.(slip.List)
+		if !ok || len(ta) != len(tb) {
+			return false
+		}
+		for i, v := range ta {
+			if !sameDefault(v, tb[i]) {
+				return false
+			}
+		}
+		return true
+	case slip.Tail:
+		tb, ok := b.(slip.Tail)
+		return ok && sameDefault(ta.Value, tb.Value)
+	}
+	return a.Hierarchy()[0] == b.Hierarchy()[0] && a.Equal(b)
 }
 
 func appendStringSliceOption(df slip.List, name string, ss []string) slip.List {
